@@ -1,5 +1,5 @@
 use super::interfaces::{is_iseq, is_iseqable};
-use parking_lot::ReentrantMutex;
+use parking_lot::{ReentrantMutex, ReentrantMutexGuard};
 use pyo3::exceptions::PyTypeError;
 use pyo3::prelude::*;
 use pyo3::sync::PyOnceLock;
@@ -7,6 +7,7 @@ use pyo3::types::{PyBool, PyDict, PyIterator, PyTuple, PyType};
 use pyo3::{intern, IntoPyObjectExt, PyTypeInfo};
 use std::cell::RefCell;
 use std::ops::Deref;
+use std::time::Duration;
 
 static CONS_TYPE: PyOnceLock<Py<PyType>> = PyOnceLock::new();
 static EMPTY_SEQ: PyOnceLock<Py<PyAny>> = PyOnceLock::new();
@@ -425,6 +426,25 @@ pub struct LazySeq {
     meta: Py<PyAny>,
 }
 
+impl LazySeq {
+    // Acquire the state lock without ever blocking on it while attached to the
+    // interpreter. The lock is held while the generator function (arbitrary Python
+    // code) runs, so the holder may need the interpreter to make progress; a second
+    // thread blocking on the lock while still attached would deadlock with it.
+    fn acquire(&self, py: Python) -> ReentrantMutexGuard<'_, RefCell<LazySeqState>> {
+        let mut wait = Duration::from_micros(20);
+        loop {
+            if let Some(guard) = self.lock.try_lock() {
+                return guard;
+            }
+            py.detach(|| std::thread::sleep(wait));
+            if wait < Duration::from_millis(1) {
+                wait *= 2;
+            }
+        }
+    }
+}
+
 #[pymethods]
 impl LazySeq {
     #[new]
@@ -469,7 +489,7 @@ impl LazySeq {
     // before calling `(seq ...)` on the result, which is cached.
 
     fn _compute_seq(&self, py: Python) -> PyResult<Py<PyAny>> {
-        let mutex = self.lock.lock();
+        let mutex = self.acquire(py);
         let state = mutex.borrow();
         match state.deref() {
             LazySeqState::Computing => return Ok(py.None()),
@@ -517,7 +537,7 @@ impl LazySeq {
     }
 
     fn seq(&self, py: Python) -> PyResult<Py<PyAny>> {
-        let mutex = self.lock.lock();
+        let mutex = self.acquire(py);
         let state = mutex.borrow();
         if let LazySeqState::Realized(seq) = state.deref() {
             return Ok(seq.as_ref().clone_ref(py));
@@ -613,7 +633,7 @@ impl LazySeq {
 
     #[getter(is_realized)]
     fn is_realized<'py>(&self, py: Python<'py>) -> PyResult<Borrowed<'py, 'py, PyBool>> {
-        let mutex = self.lock.lock();
+        let mutex = self.acquire(py);
         let state = mutex.deref().borrow();
         Ok(PyBool::new(py, matches!(*state, LazySeqState::Realized(_))))
     }
